@@ -1,18 +1,23 @@
 #!/bin/sh
 # MANIFEST.setup_cmd: build everything from files on disk, offline. Nothing under /tmp.
-set -e
+# Failures of individual Lean modules / harnesses are tolerated here: every ./check rebuilds what it needs and reports for itself.
 cd "$(dirname "$0")"
 export GOFLAGS=-mod=mod GOPROXY=off GOSUMDB=off GOTOOLCHAIN=local
-mkdir -p build/bin build/replay build/run evidence
+mkdir -p build/bin build/replay build/run build/tmp build/gomod/repo evidence
+set -e
 gcc -c -O1 -I/repo/smartcontract/service/wasmvm stub/wasmjit_stub.c -o build/wasmjit_stub.o
 ar rcs build/libwasmjitstub.a build/wasmjit_stub.o
 export CGO_LDFLAGS="-L$(pwd)/build -lwasmjitstub"
 python3 tools/gengomod.py /repo harness/go.mod
-mkdir -p build/gomod/repo && python3 tools/gengomod.py /repo build/gomod/repo/go.mod
+python3 tools/gengomod.py /repo build/gomod/repo/go.mod
 python3 tools/genmain.py
-(cd lean/OntVerif && lake build OntVerif)
-(cd lean/OntVerif && for d in OntVerif/Driver/C*.lean; do echo drv-$(basename $d .lean); done | xargs lake build)
-# warm the Go build cache: every harness binary once (checks rebuild them from /repo's working tree anyway)
+(cd harness && go build -o ../build/bin/factgen ./cmd/factgen)
+set +e
+build/bin/factgen -repo /repo -out lean/OntVerif/OntVerif/Gen
+IDS=$(cat props/enabled.txt)
+(cd lean/OntVerif && for i in $IDS; do echo OntVerif.Props.$i drv-$i; done | xargs lake build) || echo "setup: some Lean targets failed (the checks concerned will report it)"
+# warm the Go build cache: every enabled harness binary once (checks rebuild them from /repo's working tree anyway)
 cd harness
-ls cmd | xargs -P 6 -I{} sh -c 'if [ "{}" = factgen ]; then go build -o ../build/bin/factgen ./cmd/factgen; else go build -modfile=../build/gomod/repo/go.mod -tags verif -o ../build/bin/hx-{} ./cmd/{}; fi'
+for i in $IDS; do echo $i | tr 'C' 'c'; done | xargs -P 6 -I{} sh -c 'go build -modfile=../build/gomod/repo/go.mod -tags verif -o ../build/bin/hx-{} ./cmd/{} || echo "setup: harness {} failed to build"'
 echo "setup done"
+exit 0
